@@ -72,7 +72,7 @@ Definition oloc_eqb (a b : option location) : bool :=
 
 Definition msg_eqb (a b : message) : bool :=
   match a, b with
-  | MFixed x, MFixed y => N.eqb x y
+  | MFixed _, MFixed _ => true          (* the wording of the fixed messages is not an observable the properties speak of *)
   | MProviderError x, MProviderError y => N.eqb x y
   | _, _ => false
   end.
